@@ -4,6 +4,10 @@
 // Contracts for package keystore, checked by /verif/cmd/govc (comment-only file; see /verif/DESIGN.md).
 package keystore
 
+// VerifScript is a specification function (build tag verif only): the script hash of a managed address, for contracts
+// of other packages that cannot name the unexported field.
+func (mAddr *ManagedAddress) VerifScript() []byte { return mAddr.scriptHash }
+
 // the selected keystore (nil when no wallet is selected); reads manager state only
 //@ func (*KeystoreManager).CurrentKeystore
 //@   trusted
